@@ -146,6 +146,8 @@ def parse_arf(tr):
     """-> (init, async calls, blocking calls)"""
     if -8 not in tr:
         return None, None, None
+    if -11 in tr:
+        tr = tr[:tr.index(-11)]          # trailing section: calls whose error TEXT differs between the async and the blocking run
     i8 = len(tr) - 1 - tr[::-1].index(-8)
     a, b = tr[:i8], tr[i8 + 1:]
     n = len(a)
@@ -355,6 +357,11 @@ class ArfProp(Prop):
             return "malformed trace"
         if len(ac) != len(bc):
             return "async and blocking runs made a different number of calls"
+        if -11 in trace:
+            j = trace.index(-11)
+            if trace[j + 1] > 0 and not m.get("cancel"):
+                return ("call %d: the async fn and the blocking FixedBuf method returned errors of the same kind with different text "
+                        "(io::Error::to_string() differs)" % trace[j + 2])
         total_pend = 0
         for k, (x, y) in enumerate(zip(ac, bc)):
             if self.view(x) != self.view(y):
